@@ -11,7 +11,7 @@ Translator-based (no C harness, no model driver):
  3. compile-level enumeration on the real toolchain (decided by running the
     compiler, not proved): every header alone (and included twice), every
     ordered pair, all together; each in one and in two translation units;
-    against libcstl.a and libcstl.so; project warning flags + -Werror; every
+    against libcstl.a and libcstl.so; the project's own warning flags; every
     client takes the address of every function / object its headers declare;
     each configuration must compile, link and run.  The object files' symbol
     tables are compared with what the link model predicts.
@@ -137,7 +137,10 @@ class Toolchain:
         self.tab = tab
         self.dir = workdir
         self.inc = os.path.join(tab["copy"], "include")
-        self.cflags = list(tab["cflags"]) + ["-Werror"]
+        # exactly the project's own flags (they contain -Werror=vla and
+        # -Werror=declaration-after-statement): the property asks for "no compile
+        # errors" under the project's warning flags, so a mere warning is not a violation
+        self.cflags = list(tab["cflags"])
         self.n = 0
         self.obj_cache = {}
 
@@ -387,7 +390,7 @@ def _run(chk):
     chk.exhaustive = True
     chk.extra["scope"] = ("every public header alone and included twice, every ordered pair, all together "
                           "(sorted, reversed, %s random orders); each as one TU and as two TUs (second TU in "
-                          "reverse order); against libcstl.a and libcstl.so; project CFLAGS + -Werror; every client "
+                          "reverse order); against libcstl.a and libcstl.so; the project's own CFLAGS; every client "
                           "takes the address of every function/object its headers declare; compile + link + run"
                           % ("3" if chk.tier == "quick" else "40"))
     chk.extra["rule_c18"] = ("one evaluation = one client program compiled, linked and run on the real toolchain; "
